@@ -137,6 +137,29 @@ template <class TA, class T> static Res ledgerTypedLoad(T& obj, const std::strin
 	return r;
 }
 
+// typed model with growing std containers (allocation failures inside container growth / string assignment / map insertion)
+struct Big { std::vector<std::string> v; std::map<std::string, int> m; std::string s; std::vector<std::vector<int>> vv;
+	template <class A> void Serialize(A& ar) { ar << BitSerializer::KeyValue("v", v) << BitSerializer::KeyValue("m", m) << BitSerializer::KeyValue("s", s) << BitSerializer::KeyValue("vv", vv); } };
+struct CsvRow { std::string name; int n = 0; std::string note; template <class A> void Serialize(A& ar) { ar << BitSerializer::KeyValue("name", name) << BitSerializer::KeyValue("n", n) << BitSerializer::KeyValue("note", note); } };
+static Big makeBig() { Big b; b.v = {"first string that is longer than the small string optimisation buffer", "b", std::string(70, 'c')}; b.m = {{"key_one_with_a_long_long_long_name", 1}, {"k2", 2}}; b.s = std::string(100, 's'); b.vv = {{1, 2, 3}, {5}, {4}}; /* no empty inner container: XML cannot reload one (C01 finding) */ return b; }
+static std::vector<CsvRow> makeRows() { return {{"a long name that needs the heap, with \"quotes\" and , separators", 1, "x"}, {"b", 2, std::string(80, 'n')}, {"c", 3, ""}}; }
+template <class TA, class T> static Res typedAllocFault(const T& value, bool save, bool stream, long k, long& leaked, long& allocs, const BitSerializer::SerializationOptions& o) {
+	// the document is produced outside the ledger; the faulted operation runs inside it
+	std::string doc; { T copy = value; doc = BitSerializer::SaveObject<TA>(copy); }
+	Res r; auto& a = env::alloc();
+	for (int pass = 0; pass < 2; ++pass) {
+		{ env::AllocScope ledger(-1);
+			{ T obj = save ? value : T{}; std::string out; a.count = 0; a.failAtCount = k;
+				r = guarded([&] {
+					if (save) { if (stream) { std::ostringstream os; BitSerializer::SaveObject<TA>(obj, os, o); } else BitSerializer::SaveObject<TA>(obj, out, o); }
+					else { if (stream) { std::istringstream is(doc); BitSerializer::LoadObject<TA>(obj, is, o); } else BitSerializer::LoadObject<TA>(obj, doc, o); } });
+				a.failAtCount = -1; allocs = a.count; }
+			leaked = a.live; }
+		if (leaked == 0) break;
+	}
+	return r;
+}
+
 static void judgeCommon(bsx::Ctx& c, const std::string& sig, const Res& r, long leaked, bool mustThrow, const std::string& info) {
 	c.outcome(r.cls);
 	if (r.threw && !r.stdExc) c.violation(sig + "/out=nonstd_exception", "an exception not derived from std::exception escaped | " + info);
@@ -153,9 +176,31 @@ static void followUp(bsx::Ctx& c, const std::string& sig) {
 static void body(bsx::Ctx& c) {
 	static bool once = (pugi::set_memory_management_functions(pugiAlloc, pugiFree), true); (void)once;
 	const bool thorough = c.tier == "thorough";
-	int scen = c.choose(6, "scenario");
+	int scen = c.choose(7, "scenario");
 	static std::vector<Doc> C[4] = {corpus(0), corpus(1), corpus(2), corpus(3)};
-	static const char* scenName[] = {"load_truncated", "load_alloc_fail", "save_alloc_fail", "load_stream_fault", "save_stream_fault", "mid_operation_error"};
+	static const char* scenName[] = {"load_truncated", "load_alloc_fail", "save_alloc_fail", "load_stream_fault", "save_stream_fault", "mid_operation_error", "typed_alloc_fail"};
+	if (scen == 6) {
+		// ---- (b') k-th allocation failure while saving / loading typed std containers, all archives, memory and stream, UTF-16 stream output as well
+		int arch = c.choose(4, "archive"); int save = c.choose(2, "save"); int stream = c.choose(2, "stream"); int enc = stream && save ? c.choose(2, "utf16") : 0;
+		auto o = lib::opts(); if (enc) { o.streamOptions.encoding = BitSerializer::Convert::Utf::UtfType::Utf16le; o.streamOptions.writeBom = true; }
+		std::string sig = std::string("C20/typed_alloc_fail/") + archName(arch) + (save ? "/save" : "/load") + (stream ? "/stream" : "/mem") + (enc ? "/utf16" : "");
+		long leaked = 0, allocs = 0;
+		auto run = [&](long k) { return arch == tl::Csv ? typedAllocFault<tl::CS>(makeRows(), save == 1, stream == 1, k, leaked, allocs, o)
+			: arch == tl::MsgPack ? typedAllocFault<tl::MP>(makeBig(), save == 1, stream == 1, k, leaked, allocs, o) : arch == tl::Json ? typedAllocFault<tl::JS>(makeBig(), save == 1, stream == 1, k, leaked, allocs, o) : typedAllocFault<tl::XM>(makeBig(), save == 1, stream == 1, k, leaked, allocs, o); };
+		c.describe(sig, "fault-free run");
+		Res r0 = run(-1);
+		if (r0.threw) { c.violation(sig + "/out=fault_free_run_failed", std::string("fault-free run threw ") + r0.cls + " " + r0.what); return; }
+		long total = allocs;
+		int k = c.choose(static_cast<int>(total) + 1, "kth_alloc");
+		c.describe(sig, "fail allocation #" + std::to_string(k) + " of " + std::to_string(total));
+		if (k == total) { judgeCommon(c, sig, r0, leaked, false, "fault-free"); return; }
+		Res r = run(k);
+		c.nontrivial(sig + std::to_string(k)); if (k == 2) c.sample(sig + " fail alloc #2 of " + std::to_string(total) + " -> " + r.cls);
+		judgeCommon(c, sig, r, leaked, false, "failed allocation #" + std::to_string(k) + " of " + std::to_string(total));
+		if (!r.threw) c.outcome("alloc_failure_absorbed");
+		followUp(c, sig);
+		return;
+	}
 	if (scen <= 4) {
 		int arch = c.choose(4, "archive");
 		int di = c.choose(static_cast<int>(C[arch].size()), "doc");
